@@ -105,10 +105,10 @@ def c17_3(run):
     cands = [n for n in ex.fns if n.endswith('::try_from_raw') and 'closure' not in n and (ex.impl_self(n) or (None, ''))[1] == 'SequencerBlock']
     if len(cands) != 1:
         raise Inconclusive(f'SequencerBlock::try_from_raw not found: {cands}')
-    run.bound(raw='raw blocks with no rollup entries (the per-entry conversion is a nested fn item the executor does not resolve; stated), proofs / header present or absent, 0 upgrade hashes, extended commit info present or absent', checks='every conversion and every Merkle check is an oracle that may fail; what is decided is that none of them can be skipped')
+    run.bound(raw='raw blocks with 0..1 rollup entries, proofs / header present or absent, 0 upgrade hashes, extended commit info present or absent', checks='every conversion and every Merkle check is an oracle that may fail; what is decided is that none of them can be skipped')
     n_ok = 0
     RAW = 'astria_core::generated::astria::sequencerblock::v1::'
-    for k in (0,):
+    for k in (0, 1):
         for has_eci in (False, True):
             optp = lambda tag: (lambda o: o)(_opt(tag))
             raw = B.struct(ex, RAW + 'SequencerBlock', block_hash=Obj('bytes::Bytes', kind='opaque'), header=_opt('header'), rollup_transactions=M.new_vec('Vec<RollupTransactions>', [Obj(RAW + 'RollupTransactions', kind='opaque') for _ in range(k)]),
